@@ -39,6 +39,12 @@ add('C13',
     'Trusts the inspect / functools predicates to classify callables as documented; does not decide classification of exotic callables at run time.',
     'DESIGN.md section 4, C13')
 
+add('C14',
+    'table cross-check of SUPPORTED_BUILTINS / BUILTIN_FUNCTIONS_MAP; signature arithmetic of every Python-accepted call shape against the overload def; symbolic (path-forking) evaluation of each overload and its _py_ helper for every supplied/omitted assignment with sentinel resolution, ending in a checked terminal builtin call; structural check of the frame search loop and of the generated scope-name/with-as-name agreement in templates',
+    'For the 13 substituted builtins decides: registered under the right name; every call shape the 3.12 builtin accepts (frozen table from the library reference) binds to the overload; for every supplied/omitted combination of optional arguments the code path (registries empty, as for ordinary values) ends in one direct call of the real builtin passing exactly the supplied arguments in slots of the same meaning and never the sentinel or an invented value; frame-sensitive builtins are identity-dispatched with the caller scope, the frame search walks the whole stack and super() uses the outermost match; scope name equals the bound name in generated code.',
+    'Trusts the frozen signature table (Python 3.12 library reference) and that type registries are empty for ordinary values; does not compare values, laziness or exception types at run time.',
+    'DESIGN.md section 4, C14')
+
 NOT_APPLICABLE = {
     'C12': 'quantifies over run-time tracebacks, generated line layout and source-map contents, which exist only after the pipeline has run on a program; the only shape-level clause (exception re-creation table) is too small a part to claim the property through (DESIGN.md section 5)',
 }
